@@ -3,6 +3,7 @@ use mc_core::Ctx;
 
 mod c12;
 mod c13;
+mod c13_l2;
 
 fn main() {
     let ctx = Ctx::from_args();
